@@ -4,6 +4,8 @@ pub mod alpha;
 pub mod bigint;
 pub mod dtx;
 pub mod exact;
+pub mod explore;
+pub mod model;
 pub mod refval;
 pub mod report;
 pub mod snap;
